@@ -1174,3 +1174,78 @@ def size_fresh_rule(rep, F):
             if hit is not None:
                 rep.violation("SIZE-fresh", "%s|sizing@%d" % (F.key(fid), [c.bb for c in sizing].index(s.bb)), "%s accepts the proposal (TxProposalChanges::new) after its %s set_min_ada_for_tx call without a comparison of *that* call's size with config.max_tx_size on the way (%d comparison(s) with max_tx_size exist, naming sizing calls %s): inputs added before this call (the ADA top-up and its witnesses) are not in the size that was tested, so create_send_all can return a transaction above max_tx_size" % (F.key(fid), ["first", "second", "third", "fourth"][min(3, [c.bb for c in sizing].index(s.bb))], len(gates), sorted({[c.bb for c in sizing].index(x) for g, e, nm in gates for x in nm if x in sz_bbs})), {"file": fn.get("file"), "line": s.line})
     rep.floor("sizing calls followed by an acceptance (send-all)", 3, n)
+
+
+# ---- a reader that opened a container with a length book-keeper closes it ------------------------------------------------------
+def close_len_rule(rep, F):
+    """CLOSE-len: every reader that counts a declared length with CBORReadLen ends the container it opened"""
+    rep.rule("CLOSE-len", "in every reader that wraps the Len of its array() / map() call in a CBORReadLen: (definite) the success return is not reachable on the definite-length side without CBORReadLen::finish - read_elems only rejects a declared length that is too *small*, so without finish an over-long array is accepted, its surplus items are read as whatever follows, and a byte-preserving owner (PlutusData, the auxiliary data / body / witness set of a FixedTransaction) keeps a span that is not one CBOR item; (indefinite) the success return is not reachable on the indefinite side without consuming the Break (special() directly or through a helper that takes the Len): otherwise the kept span ends one byte early")
+    import mustpass as _mp
+    helpers = set()
+    for fid, fn in F.fns.items():
+        if any(t == "cbor_event::Len" for t in fn["locals"][1:1 + fn.get("argc", 0)]) and any((c.to or "").endswith("Deserializer::<R>::special") for c in F.calls(fid)):
+            helpers.add(fid)
+    n = 0
+    for fid, fn in F.fns.items():
+        news = [c for c in F.calls(fid) if (c.to or "").endswith("CBORReadLen::new")]
+        if not news:
+            continue
+        bbs = fn["bbs"]
+        succ = {i: [x for x in _mp._succs(fn, i) if x is not None and not bbs[x]["c"]] for i in range(len(bbs)) if not bbs[i]["c"]}
+        # constant loop conditions: `Len::Indefinite => true` assigns a constant and jumps to the block that switches on it
+        for b_ in list(succ):
+            t_ = bbs[b_]["t"]
+            if t_[1] != "goto":
+                continue
+            j_ = t_[2]
+            tj = bbs[j_]["t"]
+            if bbs[j_]["st"] or tj[1] != "switch":
+                continue
+            L_ = _mp.op_place(tj[2])
+            val = None
+            for st in bbs[b_]["st"]:
+                if st[1] == "=" and st[2] == L_:
+                    val = st[3][1][1] if (st[3][0] == "use" and st[3][1][0] == "k" and st[3][1][1] in ("true", "false")) else None
+            if val is not None:
+                f_ = [tgt for v, tgt in tj[3] if v == "0"]
+                succ[b_] = [f_[0]] if (val == "false" and f_) else [tj[4]] if val == "true" else succ[b_]
+        succ_stores = {b for b, kind, loc in _mp.success_stores(F, fid)}
+        fin = {c.bb for c in F.calls(fid) if (c.to or "").endswith("CBORReadLen::finish")}
+        brk = {c.bb for c in F.calls(fid) if (c.to or "").endswith("Deserializer::<R>::special") or c.to in helpers}
+        # switches on the discriminant of a Len
+        indef_edges, def_edges = set(), set()
+        for bi, bb in enumerate(bbs):
+            if bb["c"] or bb["t"][1] != "switch":
+                continue
+            sw = _mp.op_place(bb["t"][2])
+            for st in bb["st"]:
+                if st[1] == "=" and st[2] == sw and st[3][0] == "discr":
+                    src = st[3][1].split("|")[0]
+                    if src.startswith("_") and src[1:].isdigit() and fn["locals"][int(src[1:])] in ("cbor_event::Len", "&cbor_event::Len"):
+                        for v, tgt in bb["t"][3]:
+                            (indef_edges if v == "0" else def_edges).add((bi, tgt))
+
+        def reach(start, stop_bbs, cut):
+            seen, work = set(), [start]
+            while work:
+                b = work.pop()
+                if b is None or b in seen or bbs[b]["c"]:
+                    continue
+                seen.add(b)
+                if b in stop_bbs:
+                    continue
+                if b in succ_stores:
+                    return b
+                for x in succ.get(b, []):
+                    if (b, x) not in cut:
+                        work.append(x)
+            return None
+        for i, c in enumerate(news):
+            n += 1
+            rep.inst("CLOSE-len")
+            key = F.key(fid.split("::{closure")[0]) + ("" if len(news) == 1 else "#%d" % i)
+            if reach(c.target, fin, indef_edges) is not None:
+                rep.violation("CLOSE-len", "%s|definite" % key, "%s returns a value for a definite-length container without CBORReadLen::finish: a declared length larger than the items read is accepted (read_elems only fails when it is too small) - the surplus items are left in the stream and parsed as what follows, and a byte-preserving owner keeps a span that is not a complete CBOR item (PlutusData::from_hex(d866 83 00 80 00).to_hex() = d866830080)" % key, {"file": fn.get("file"), "line": c.line})
+            if reach(c.target, brk, def_edges) is not None:
+                rep.violation("CLOSE-len", "%s|indefinite" % key, "%s returns a value for an indefinite-length container without consuming its Break: the 0xff is left in the stream, and a byte-preserving owner (deserilized_with_orig_bytes) keeps a span that ends one byte early - FixedTransaction::to_bytes then writes a truncated item" % key, {"file": fn.get("file"), "line": c.line})
+    rep.floor("CBORReadLen book-keepers", 19, n)
